@@ -31,6 +31,7 @@ func slotsOf(p *Prog) []**Expr {
 func verdictOf(p *Prog) string {
 	j := &judged{p: p, o: runOne(p)}
 	j.ref, j.lets, j.err = refRun(p)
+	j.emptyHelperList = lastRefEmptyHelperList
 	k, _ := verdict(j)
 	return k
 }
